@@ -86,6 +86,8 @@ struct Agg {
     proc_offset: usize,
     /// (process, request key, world tag, job index) of references whose request is not a corpus program
     ref_origin: Vec<(usize, u64, String, usize)>,
+    /// (worker process, origin tag, job index, log level, reference tag, expected pristine hash)
+    dbg_refs: Vec<(usize, String, usize, u8, String, u64)>,
     /// world tag of a violation -> process that reported it
     violation_proc: BTreeMap<String, usize>,
     /// key-set hash -> (map size, distinct iteration orders seen)
@@ -105,6 +107,9 @@ impl Agg {
         }
         for (k, t, j) in &r.ref_origin {
             self.ref_origin.push((procid + self.proc_offset, *k, t.clone(), *j));
+        }
+        for (t, j, l, rt, h) in &r.dbg_refs {
+            self.dbg_refs.push((procid + self.proc_offset, t.clone(), *j, *l, rt.clone(), *h));
         }
         for (k, v) in r.stats {
             *self.stats.entry(k).or_insert(0) += v;
@@ -298,7 +303,7 @@ pub fn check(prop: &str, tier_name: &str) -> i32 {
                     continue;
                 }
                 // kinds whose space is small are enumerated completely even in the quick tier
-                let cap = if ["splice_eol", "literal_boundary", "crlf", "lost_line", "dup_line", "swap_lines", "lost_sector", "eof"].contains(&kind) {
+                let cap = if ["splice_eol", "literal_boundary", "crlf", "lost_line", "dup_line", "swap_lines", "lost_sector", "eof", "bank_boundary"].contains(&kind) {
                     t.c16_sample.max(600)
                 } else {
                     t.c16_sample
@@ -375,11 +380,11 @@ pub fn check(prop: &str, tier_name: &str) -> i32 {
     // worker deaths become ABORT candidates, confirmed alone in a fresh process
     let deaths = std::mem::take(&mut agg.deaths);
     for (tag, status, diag, _item) in deaths {
+        if status == "exit 3" {
+            continue; // wall-clock hang (in a world or in a reference run): the worker sent a V before exiting
+        }
         if let Some(w) = world_of_tag(prop, base, &tag, &corpus) {
             let class = classify_death(&status, &diag);
-            if status == "exit 3" {
-                continue; // wall-clock hang: the worker sent a V before exiting
-            }
             let key = abort_key(&class, &w);
             by_key.entry(key.clone()).or_default().push(VMsg {
                 tag,
@@ -462,6 +467,47 @@ pub fn check(prop: &str, tier_name: &str) -> i32 {
             }
             break;
         }
+    }
+    // the same for what RUST_LOG=debug|trace shows: a seeded sample of the Debug/Trace references the workers
+    // computed in the middle of their histories must equal the same world in a pristine process
+    if prop == "C05" && exit == 0 {
+        let mut all: Vec<&(usize, String, usize, u8, String, u64)> = agg.dbg_refs.iter().chain(a2.dbg_refs.iter()).collect();
+        let mut rs = Rng::new(mix(base, 0xDB));
+        let want = if t.name == "quick" { 24 } else { 400 };
+        let mut tags = agg.proc_tags.clone();
+        tags.extend(a2.proc_tags.iter().map(|(k, v)| (*k, v.clone())));
+        let mut checked = 0;
+        while checked < want && !all.is_empty() {
+            let o = all.swap_remove(rs.usize_below(all.len()));
+            let Some(w) = world_of_tag(prop, base, &o.1, &corpus) else { continue };
+            let Some(j) = w.jobs.get(o.2) else { continue };
+            let mut cj = j.clone();
+            cj.reader = StreamSpec::canonical();
+            cj.writer = StreamSpec::canonical();
+            let mut dw = World::solo("C05", cj);
+            dw.log_level = o.3;
+            checked += 1;
+            let Some(pristine) = last_obs_hash(prop, std::slice::from_ref(&dw)) else { continue };
+            if pristine == o.5 {
+                continue;
+            }
+            println!("simc: Debug/Trace records of a request inside worker process {} differ from those of a pristine process (origin {}, job {})", o.0, o.1, o.2);
+            let hist = tags.get(&o.0).cloned().unwrap_or_default();
+            let cut = hist.iter().position(|x| *x == o.4).unwrap_or(hist.len());
+            let full = regen_history(prop, base, &corpus, &hist[..cut]);
+            match prochist_last_world(&root, prop, &full, dw.clone(), pristine) {
+                Some(path) => {
+                    println!("VIOLATION property={} replay={}", prop, path);
+                    exit = 1;
+                }
+                None => {
+                    eprintln!("HARNESS: process-history divergence of the Debug/Trace records of {} job {} could not be reproduced", o.1, o.2);
+                    return 2;
+                }
+            }
+            break;
+        }
+        agg.stats.insert("probe.debug_log_refs_checked_against_pristine_process".into(), checked as u64);
     }
     if selftest_pending && exit == 0 && prop == "C05" {
         // a world whose observations differed between the two self-test runs: compare it after the
